@@ -30,6 +30,7 @@ Mismatch kinds (res["mismatches"], each a dict with "kind", "prog", "cfg", "entr
   crash                 panic in the implementation vs Crash outcome in the model disagree
   alarm-count           (max-alarms runs) number of sink visits recorded before the stop differs
   outoffuel             the model ran out of fuel (200000 iterations)
+  impl-timeout          the real traversal (travdump) does not return within the time limit (900 s; 3-10 s is normal)
   unstable / xchk / dump-error     the protocol's own sanity checks failed
 """
 import collections
@@ -98,7 +99,9 @@ def dump_and_model(prog, cfg, work, seeds, mode="both", timeout=900):
     dump = os.path.join(work, name + ".dump")
     mod = os.path.join(work, name + ".model")
     rc, out = vlib.sh(dump_cmd(cfg, dump, [prog_dir(prog)]), timeout=timeout)
-    if rc != 0 and not os.path.exists(dump):
+    if rc == 124:
+        return dump, mod, "TIMEOUT: travdump (the real pipeline + traversal of every entry point) did not return within %d s" % timeout
+    if rc != 0:
         return dump, mod, "travdump failed (rc %d): %s" % (rc, out[-1500:])
     rc, mout, merr = vlib.sh2([os.path.join(vlib.BIN, "travmodel"), "-seeds", str(seeds), "-fuel", str(FUEL), "-mode", mode, dump],
                               timeout=timeout)
@@ -328,7 +331,7 @@ def run_tie(chk, programs, configs, seeds=None, work=None, jobs=None, mode="both
             dump, mod, err = f.result()
             cases.append((p, cfg_tag(c), dump, mod))
             if err:
-                mism.append({"kind": "dump-error", "prog": p, "cfg": cfg_tag(c), "cfgd": dict(c), "entry": "-", "detail": err, "dump": dump, "model": mod})
+                mism.append({"kind": "impl-timeout" if err.startswith("TIMEOUT:") else "dump-error", "prog": p, "cfg": cfg_tag(c), "cfgd": dict(c), "entry": "-", "detail": err, "dump": dump, "model": mod})
                 continue
             st, mm = compare(p, c, dump, mod)
             stats.update(st)
@@ -337,7 +340,7 @@ def run_tie(chk, programs, configs, seeds=None, work=None, jobs=None, mode="both
     return {"stats": stats, "mismatches": mism, "cases": sorted(cases), "work": work, "seeds": seeds}
 
 
-TIE_KINDS = ("model-sink-not-impl", "impl-sink-not-model", "step", "crash", "alarm-count", "outoffuel", "unstable", "xchk", "dump-error")
+TIE_KINDS = ("model-sink-not-impl", "impl-sink-not-model", "step", "crash", "alarm-count", "impl-timeout", "outoffuel", "unstable", "xchk", "dump-error")
 
 
 def write_replay(chk, key, m, extra=""):
@@ -345,6 +348,10 @@ def write_replay(chk, key, m, extra=""):
     for f in (m.get("dump"), m.get("model")):
         if f and os.path.exists(f):
             shutil.copy(f, d)
+    if m["kind"] == "impl-timeout":
+        for f in ("main.go", "config.yaml", "config.json"):
+            if os.path.exists(os.path.join(prog_dir(m["prog"]), f)):
+                shutil.copy(os.path.join(prog_dir(m["prog"]), f), d)
     with open(os.path.join(d, "replay.txt"), "w") as f:
         f.write("%s\nprogram: %s   config: %s   entry (problem.entry): %s\n%s\n\n%s\n" % (key, prog_dir(m["prog"]), m["cfg"], m["entry"], m["detail"], extra))
         f.write("re-run:\n  cd /verif/harness && go build -tags verif -o /verif/build/bin/ ./cmd/travdump\n"
